@@ -70,7 +70,12 @@ func coAction(a int, x, p string, n int) []Stmt {
 // CoroutineScripts enumerates all scripts over two coroutines A and B whose
 // bodies are sequences of at most maxLen actions, driven by a fixed main
 // program that resumes, inspects and closes them in every state.
-func CoroutineScripts(maxLen int) []GridCase {
+func CoroutineScripts(maxLen int) []GridCase { return CoroutineScriptsWhere(maxLen, nil) }
+
+// CoroutineScriptsWhere builds only the scripts whose index keep accepts (the
+// others are empty placeholders, so that indices stay those of the full grid):
+// the 3-action grid is several GB of syntax trees when built completely.
+func CoroutineScriptsWhere(maxLen int, keep func(i int) bool) []GridCase {
 	var seqs [][]int
 	var rec func(cur []int)
 	rec = func(cur []int) {
@@ -112,6 +117,10 @@ func CoroutineScripts(maxLen int) []GridCase {
 		for _, sb := range seqs {
 			if len(sb) > 2 {
 				continue // B's body has at most two actions (A's up to maxLen): the product stays enumerable
+			}
+			if keep != nil && !keep(len(out)) {
+				out = append(out, GridCase{})
+				continue
 			}
 			block := []Stmt{
 				&Local{Names: []string{"A", "B"}},
